@@ -170,12 +170,18 @@ pub struct XEnc {
     pub rows_never_r: bool,
     /// formula text and defined-name text are interrupted: a CDATA section in the middle of <f>, a comment in the middle of <definedName>
     pub split_text_nodes: bool,
+    /// XML comments between adjacent tags of every part
+    pub comments: bool,
+    /// the optional neighbours of sheetData a real writer emits: sheetPr, sheetFormatPr, cols, row spans / heights, cell cm/vm/ph
+    /// attributes, sheetProtection, autoFilter, conditionalFormatting and dataValidations (with formula elements), pageMargins,
+    /// and an extLst whose x14 rules contain xm:f / xm:sqref elements
+    pub extras: bool,
 }
 impl Default for XEnc {
     fn default() -> Self {
         XEnc {
             prefix: false, row_r: RMode::Explicit, cell_r: RMode::Explicit, dim: DimMode::Exact, target: TargetMode::Relative,
-            upper_parts: false, upper_root: false, apply_nf: 0, method: Method::Deflated, explicit_t_n: false, empty_rows: false, reorder_members: false, rid_shuffle: false, indent: false, rels_target_first: false, rows_never_r: false, split_text_nodes: false,
+            upper_parts: false, upper_root: false, apply_nf: 0, method: Method::Deflated, explicit_t_n: false, empty_rows: false, reorder_members: false, rid_shuffle: false, indent: false, rels_target_first: false, rows_never_r: false, split_text_nodes: false, comments: false, extras: false,
         }
     }
 }
@@ -245,6 +251,7 @@ pub fn sheet_xml(sh: &XSheet, enc: &XEnc, table_rids: &[String]) -> String {
         _ => {}
     }
     o.push_str(&root_open(&tg, "worksheet"));
+    if enc.extras { o.push_str(&format!("{}>{} rgb=\"FFFF0000\"/>{}", tg.o("sheetPr"), tg.o("tabColor"), tg.c("sheetPr"))); }
     let mut cells = sh.cells.clone();
     cells.sort_by_key(|c| (c.row, c.col));
     // dimension
@@ -265,6 +272,7 @@ pub fn sheet_xml(sh: &XSheet, enc: &XEnc, table_rids: &[String]) -> String {
         o.push_str(&format!("{} ref=\"{}\"/>", tg.o("dimension"), rf));
     }
     o.push_str(&format!("{}>{}/>{}", tg.o("sheetViews"), tg.o("sheetView workbookViewId=\"0\""), tg.c("sheetViews")));
+    if enc.extras { o.push_str(&format!("{} defaultRowHeight=\"15\"/>{}>{} min=\"1\" max=\"3\" width=\"9.5\" customWidth=\"1\"/>{}", tg.o("sheetFormatPr"), tg.o("cols"), tg.o("col"), tg.c("cols"))); }
     o.push_str(&format!("{}>", tg.o("sheetData")));
     let mut cursor_row = 0u32;
     // false once an r-less row element sat at a row other than the one after its predecessor
@@ -282,7 +290,8 @@ pub fn sheet_xml(sh: &XSheet, enc: &XEnc, table_rids: &[String]) -> String {
         // own position is only given by its cells must carry r themselves
         let row_known = !implicit_row || (chain_known && row == cursor_row);
         if implicit_row && !row_known { chain_known = false; } else if !implicit_row { chain_known = true; }
-        if implicit_row { o.push_str(&format!("{}>", tg.o("row"))); } else { o.push_str(&format!("{} r=\"{}\">", tg.o("row"), row + 1)); }
+        let rx = if enc.extras { " spans=\"1:4\" ht=\"15\" customHeight=\"1\"" } else { "" };
+        if implicit_row { o.push_str(&format!("{}{rx}>", tg.o("row"))); } else { o.push_str(&format!("{} r=\"{}\"{rx}>", tg.o("row"), row + 1)); }
         let mut cursor_col = 0u32;
         while i < cells.len() && cells[i].row == row {
             let c = &cells[i];
@@ -291,6 +300,7 @@ pub fn sheet_xml(sh: &XSheet, enc: &XEnc, table_rids: &[String]) -> String {
             let implicit_cell = enc.cell_r == RMode::Implicit && c.col == cursor_col && row_known;
             if !implicit_cell { attrs.push_str(&format!(" r=\"{}\"", a1(c.row, c.col))); }
             if let Some(s) = c.style { attrs.push_str(&format!(" s=\"{s}\"")); }
+            if enc.extras { attrs.push_str(" cm=\"0\" vm=\"0\" ph=\"1\""); }
             let t = match &c.val {
                 XVal::Num(_) => if enc.explicit_t_n { Some("n") } else { None },
                 XVal::SharedStr(_) => Some("s"),
@@ -333,15 +343,24 @@ pub fn sheet_xml(sh: &XSheet, enc: &XEnc, table_rids: &[String]) -> String {
         cursor_row = row + 1;
     }
     o.push_str(&tg.c("sheetData"));
+    if enc.extras { o.push_str(&format!("{} sheet=\"1\" objects=\"1\"/>{} ref=\"A1:B2\"/>", tg.o("sheetProtection"), tg.o("autoFilter"))); }
     if !sh.merges.is_empty() {
         o.push_str(&format!("{} count=\"{}\">", tg.o("mergeCells"), sh.merges.len()));
         for m in &sh.merges { o.push_str(&format!("{} ref=\"{}\"/>", tg.o("mergeCell"), m)); }
         o.push_str(&tg.c("mergeCells"));
     }
+    if enc.extras {
+        o.push_str(&format!("{} sqref=\"A1:B2\">{} type=\"expression\" dxfId=\"0\" priority=\"1\">{}>A1&gt;0{}{}{}", tg.o("conditionalFormatting"), tg.o("cfRule"), tg.o("formula"), tg.c("formula"), tg.c("cfRule"), tg.c("conditionalFormatting")));
+        o.push_str(&format!("{} count=\"1\">{} type=\"list\" sqref=\"C1\">{}>\"a,b\"{}{}{}", tg.o("dataValidations"), tg.o("dataValidation"), tg.o("formula1"), tg.c("formula1"), tg.c("dataValidation"), tg.c("dataValidations")));
+        o.push_str(&format!("{} left=\"0.7\" right=\"0.7\" top=\"0.75\" bottom=\"0.75\" header=\"0.3\" footer=\"0.3\"/>", tg.o("pageMargins")));
+    }
     if !table_rids.is_empty() {
         o.push_str(&format!("{} count=\"{}\">", tg.o("tableParts"), table_rids.len()));
         for r in table_rids { o.push_str(&format!("{} r:id=\"{}\"/>", tg.o("tablePart"), r)); }
         o.push_str(&tg.c("tableParts"));
+    }
+    if enc.extras {
+        o.push_str(&format!("{}>{} uri=\"{{78C0D931-6437-407d-A8EE-F0AAD7539E65}}\" xmlns:x14=\"http://schemas.microsoft.com/office/spreadsheetml/2009/9/main\" xmlns:xm=\"http://schemas.microsoft.com/office/excel/2006/main\"><x14:conditionalFormattings><x14:conditionalFormatting><x14:cfRule type=\"expression\" priority=\"2\"><xm:f>B2&gt;1</xm:f></x14:cfRule><xm:sqref>B2</xm:sqref></x14:conditionalFormatting></x14:conditionalFormattings>{}{}", tg.o("extLst"), tg.o("ext"), tg.c("ext"), tg.c("extLst")));
     }
     o.push_str(&tg.c("worksheet"));
     o
@@ -500,7 +519,7 @@ pub fn parts(b: &XBook, enc: &XEnc) -> Vec<(String, Vec<u8>)> {
         out.push_str(rest);
         out
     };
-    let to_b = |v: Vec<(String, String)>| v.into_iter().map(|(a, b)| { let b = reorder_rels(&a, b); (a, if enc.indent { indent_xml(&b) } else { b }.into_bytes()) }).collect::<Vec<_>>();
+    let to_b = |v: Vec<(String, String)>| v.into_iter().map(|(a, b)| { let b = reorder_rels(&a, b); let b = if enc.comments { comment_xml(&b) } else { b }; (a, if enc.indent { indent_xml(&b) } else { b }.into_bytes()) }).collect::<Vec<_>>();
     all.extend(to_b(head));
     if enc.reorder_members {
         all.extend(to_b(sheet_parts));
@@ -522,7 +541,10 @@ pub fn parts(b: &XBook, enc: &XEnc) -> Vec<(String, Vec<u8>)> {
 }
 
 /// White space between adjacent tags only (`</a><b>`, `<a><b>`, `<a/><b>`, `</a></b>`), so no text node of the document changes.
-pub fn indent_xml(x: &str) -> String {
+pub fn indent_xml(x: &str) -> String { between_tags(x, false) }
+/// `<!--c-->` between adjacent tags instead of white space
+pub fn comment_xml(x: &str) -> String { between_tags(x, true) }
+fn between_tags(x: &str, comments: bool) -> String {
     let b = x.as_bytes();
     let mut out = String::with_capacity(x.len() * 2);
     let mut depth = 0usize;
@@ -541,7 +563,7 @@ pub fn indent_xml(x: &str) -> String {
             let selfc = tag.ends_with("/>") || tag.starts_with("<?") || tag.starts_with("<!--");
             if closing { depth = depth.saturating_sub(1); }
             let after_text = std::mem::replace(&mut text_before, false);
-            if i > 0 && b[i - 1] == b'>' && !after_text && !(closing && prev_open) && !x[..i].ends_with("?>\n") { out.push('\n'); for _ in 0..depth { out.push_str("  "); } }
+            if i > 0 && b[i - 1] == b'>' && !after_text && !(closing && prev_open) && !x[..i].ends_with("?>\n") { if comments { out.push_str("<!--c-->"); } else { out.push('\n'); for _ in 0..depth { out.push_str("  "); } } }
             out.push_str(tag);
             prev_open = !closing && !selfc;
             if prev_open { depth += 1; }
